@@ -27,6 +27,11 @@ def _group_matching(tlist, cls):
             # for the other ~50% of tokens...
             continue
 
+        if _is_delimiter(tlist, token):
+            # the opening / closing token of the enclosing group (of another
+            # class) is not available for matching, e.g. the END of a CASE
+            continue
+
         if token.is_group and not isinstance(token, cls):
             # Check inside previously grouped (i.e. parenthesis) if group
             # of different type is inside (i.e., case). though ideally  should
